@@ -29,7 +29,7 @@ import (
 func init() {
 	core.Register(&core.Property{
 		ID: "C07", Level: "fault_enumeration", Engine: "wirefault",
-		Quick: 6000, Thorough: 600000,
+		Quick: 6000, Thorough: 60000,
 		Run:        runC07,
 		Rule:       "one run = one generated (type, value) whose encoding E decodes; evaluations = individual faulted decodes: every prefix of E (exhaustive), 6 byte substitutions at every offset (all offsets up to 512 bytes, sampled beyond), every length prefix at every nesting level inflated to 13 values in minimal and padded form, every varint re-encoded over-long, wire-type swaps of every declared field, a foreign field of each wire type and of 3 undeclared numbers inserted at every field boundary of every nesting level, decodes into a different type, random strings. non-trivial = E has at least 2 bytes; distinct = distinct hash of (type, E)",
 		FaultKinds: []string{"tear(prefix)", "tear(prefix, rest of the message behind len)", "rot(byte-substitution)", "length-inflation", "overlong-varint", "overflow-varint(10th byte > 1)", "wire-type-swap", "foreign-field:varint", "foreign-field:fixed64", "foreign-field:varlen", "foreign-field:fixed32", "foreign-field-nested-level", "cross-type-decode", "random-bytes", "scaling-probe(n vs 8n elements)", "short-message-after-a-long-one", "destination-decoded-into-again", "deep-nesting-probe", "cut-inside-length-prefix", "cut-inside-embedded-message"},
